@@ -603,7 +603,16 @@ Fixpoint compare_from (c : cfg) (i : N) (s : nstate) (ops : list op) (obs : list
   | _, _ => vok
   end.
 
+(* a case with configuration [99] is the callback-serialisation scenario: two goroutines, one of them
+   inside a slow leave callback; the observation is whether a second callback ran meanwhile *)
+Definition check_serial (sel : N) (cs : list int * (list (list int) * list (list int))) : verdict :=
+  match snd (snd cs) with
+  | [[f]] => if bi f && (N.eqb sel 0 || N.eqb sel 13) then mkV 132 0 else vok
+  | _ => mkV 1 0
+  end.
+
 Definition check_case (sel : N) (cs : list int * (list (list int) * list (list int))) : verdict :=
+  match fst cs with [k] => check_serial sel cs | _ =>
   match dec_cfg (fst cs), dec_list dec_op (fst (snd cs)), dec_list dec_obs (snd (snd cs)) with
   | Some (c, bm), Some ops, Some (ob0 :: obs) =>
       (* boot *)
@@ -618,4 +627,4 @@ Definition check_case (sel : N) (cs : list int * (list (list int) * list (list i
         else if negb (N.eqb d0 0) then mkV d0 0
         else compare_from c 1 s0 ops obs
   | _, _, _ => mkV 1 0
-  end.
+  end end.
